@@ -107,8 +107,10 @@ def p_C03(res, facts, tier):
 def p_C10(res, facts, tier):
     from .rules import dds
     dds.check_waves(res, facts, 'C10')
-    dds.check_bits(res, facts, [dds.LFO])
-    dds.table_checks(res, facts, {'sine'})
+    # the saws and the triangle are stated exactly, so the ramp accessor (and the exactness of its int -> f32 conversion)
+    # matters; index()/fraction() only feed the sine, which is stated with a tolerance and judged by R-SINE
+    dds.check_bits(res, facts, [dds.LFO], which=('ramp',))
+    dds.table_checks(res, facts, {'sine_accuracy'})
     dds.check_pa_methods(res, facts, dds.LFO, 'C10')
     if tier == 'thorough':
         from . import witness
@@ -127,9 +129,10 @@ def p_C11(res, facts, tier):
 def p_C12(res, facts, tier):
     from .rules import dds
     dds.check_pa_methods(res, facts, dds.LFO, 'C12')
-    dds.check_bits(res, facts, [dds.LFO])
+    # (the triangle's slope is judged on the term get(Triangle) returns; ramp() itself only has to convert without rounding)
+    dds.check_bits(res, facts, [dds.LFO], which=('index', 'fraction', 'ramp_cast'))
     dds.check_waves(res, facts, 'C12')
-    dds.table_checks(res, facts, {'sine'})
+    dds.table_checks(res, facts, {'sine_continuity'})
 
 
 def p_C07(res, facts, tier):
@@ -154,7 +157,8 @@ def p_C08(res, facts, tier):
 def p_C09(res, facts, tier):
     from .rules import quant
     quant.check_convert(res, facts, 'C09')
-    quant.check_search(res, facts, 'C09')
+    # (C09 compares with "what a quantizer without history would report", whatever that is: the correctness of the search is
+    # C07's / C08's statement; C09 only needs the search not to read the previous conversion: check_search_history_free)
     quant.check_scale_edits_keep_cache(res, facts)
     quant.check_search_history_free(res, facts)
 
